@@ -319,9 +319,9 @@ def _run(ctx):
         if p is None and recs:
             # ... and no way out of the function skips the record (an early return drops the reported set)
             p = pr.path_avoiding(fcfg, [fcfg.entry], [fcfg.exit], {fcfg.node(r) for r in recs})
-        rebound = [s_ for s_ in q.assigns(ctx, f, hparam)] + [s_ for s_ in q.assigns(ctx, f, tparam)]
+        rebound = [s_ for s_ in q.assigns(ctx, f, hparam)]      # (a defensive copy of the set is harmless)
         ctx.check(not rebound, 'C20.RECORD', ctx.key(f, None, 'recorded under the reported height'),
-                  'the reported height and set are recorded as reported (the parameters are not re-assigned)',
+                  'the report is recorded under the height it was made for (the height parameter is not re-assigned)',
                   'the report is re-labelled before it is recorded: ' + '; '.join(norm(x) for x in rebound[:2]) + ' - a refresh taken at h is '
                   'filed under another height, so a notification for that height goes out without a refresh at it',
                   loc=ctx.loc(f, rebound[0] if rebound else f.node))
